@@ -2,23 +2,23 @@
 # Confirm a sub-agent's seeded change in ITS scratch worktree (never /repo):
 #   tools/confirm_mutant.sh <worktree> <A|B|C>
 # Checks: demo passes on the clean tree; with the change: builds, test results identical to the clean tree, demo fails.
-WT=$1; X=$2; OUT=/tmp/confirm_$(basename $WT)_$X.txt
+WT=$1; X=$2; T=/tmp/confirm_$(basename $WT)_$X; OUT=$T.txt
 cd $WT || exit 2
 git checkout -q -- lib app test 2>/dev/null
-build() { cmake --build $WT/_build > /tmp/confirm_build.log 2>&1; }
+build() { cmake --build $WT/_build > ${T}_build.log 2>&1; }
 tests() { ctest --test-dir $WT/_build -j8 --timeout 900 2>&1 | grep -E "^\s+[0-9]+ - .*\((Failed|Timeout|SEGFAULT|Subprocess aborted|Exception)" | sed 's/^ *[0-9]* - //' | sort; }
-demo() { if [ -f mut/run_demo$X.sh ]; then (cd mut && timeout 1200 bash ./run_demo$X.sh > /tmp/confirm_demo.log 2>&1); echo $?; else echo "nodemo"; fi; }
+demo() { if [ -f mut/run_demo$X.sh ]; then (cd mut && timeout 1200 bash ./run_demo$X.sh > ${T}_demo.log 2>&1); echo $?; else echo "nodemo"; fi; }
 {
 echo "worktree $WT mutant $X"
 [ -d _build ] || cmake -G Ninja -S $WT -B $WT/_build > /dev/null 2>&1
 build || { echo "CLEAN BUILD FAILED"; exit 1; }
-tests > /tmp/confirm_base_failed.txt
-echo "clean tree: $(wc -l < /tmp/confirm_base_failed.txt) failing tests; demo exit: $(demo)"
+tests > ${T}_base_failed.txt
+echo "clean tree: $(wc -l < ${T}_base_failed.txt) failing tests; demo exit: $(demo)"
 git apply --whitespace=nowarn mut/$X.diff || { echo "PATCH DOES NOT APPLY"; exit 1; }
-if build; then echo "mutant builds: yes"; else echo "mutant builds: NO"; tail -5 /tmp/confirm_build.log; fi
-tests > /tmp/confirm_mut_failed.txt
-if diff -q /tmp/confirm_base_failed.txt /tmp/confirm_mut_failed.txt > /dev/null; then echo "test results identical: yes"; else echo "test results identical: NO"; diff /tmp/confirm_base_failed.txt /tmp/confirm_mut_failed.txt | head -5; fi
-echo "mutant demo exit: $(demo)"; tail -3 /tmp/confirm_demo.log | cut -c1-300
+if build; then echo "mutant builds: yes"; else echo "mutant builds: NO"; tail -5 ${T}_build.log; fi
+tests > ${T}_mut_failed.txt
+if diff -q ${T}_base_failed.txt ${T}_mut_failed.txt > /dev/null; then echo "test results identical: yes"; else echo "test results identical: NO"; diff ${T}_base_failed.txt ${T}_mut_failed.txt | head -5; fi
+echo "mutant demo exit: $(demo)"; tail -3 ${T}_demo.log | cut -c1-300
 git apply -R --whitespace=nowarn mut/$X.diff; git checkout -q -- lib app test 2>/dev/null
 build
 } > $OUT 2>&1
